@@ -1,8 +1,8 @@
 #!/verif/.venv/bin/python
 # Replay of a solver counterexample against the unmodified code (no shims).
-# property=C12 kernel=coords label=k1:offending_pairs_wellformed
+# property=C12 kernel=maxconn label=k4:max_connectivity_register_is_accepted
 import sys
 sys.path[:0] = ['/repo' + "/pulser-core", '/repo' + "/pulser-simulation", "/verif"]
 from symx.replay import replay
-sys.exit(replay(check='checks.c12', kernel='coords', shape={'dims': 2, 'n': 2, 'nsym': 1, 'mind': False, 'maxr': True, 'maxn': False, 'unsorted': True},
-                assignment={'max_radial_distance': '0/1', 'x0_0': '6/1', 'x0_1': '0/1'}, label='k1:offending_pairs_wellformed'))
+sys.exit(replay(check='checks.c12', kernel='maxconn', shape={'n': 2, 'spacing': True, 'maxr': True},
+                assignment={'spacing': '5/1', 'max_radial_distance': '2/1'}, label='k4:max_connectivity_register_is_accepted'))
